@@ -4,13 +4,21 @@
   for a replace step against any mark / node-mark / attr step (add-mark steps *after* the replaced
   range under the visible guard `ParentStable`: the known finding "mark step vs. parent-retyping
   replace", DESIGN.md), and for two markup steps on disjoint tokens.  Pairs involving
-  replace-around steps: rebasing (`rebase_markup_not_dropped_around`) only; convergence is covered
-  by the correspondence run and the search.  "Each application succeeds" is a hypothesis of the
+  replace-around steps (lift, wrap, set_node_markup, set_block_type): last section of this file —
+  rebasing over a step before the range, after it or inside the kept gap never drops either step
+  (`rebase_around_separated`, `rebase_around_around`, `rebase_markup_not_dropped_around`); convergence
+  whenever all four applications succeed against a replace step (`commute_replace_around`), another
+  replace-around step (`commute_around_around`), node-mark / attr steps (`commute_around_nodeStep`) and mark
+  steps (`commute_around_mark_unguarded`, `commute_around_mark_partial` under `ParentStable`).
+  "Each application succeeds" is a hypothesis of the
   convergence theorems; that the two rebased replace steps *do* apply is proved under the decidable guard
   `commuteGuard` (`commute_succeeds_replace`: one step inside a node the other does not touch; false
-  without a guard, `commute_needs_guard`).
+  without a guard, `commute_needs_guard`), and likewise for a replace step outside `[from, to]` of a
+  replace-around step (`commute_succeeds_around`).
   Helper lemmas: Proofs/Commute.lean, Proofs/CommuteMarkup.lean, Proofs/CommuteSuccess.lean,
-  Proofs/CommuteSuccessR.lean, Proofs/Lvl.lean.
+  Proofs/CommuteSuccessR.lean, Proofs/Lvl.lean; for replace-around steps Proofs/CommuteAround.lean,
+  Proofs/CommuteAroundDocs.lean, Proofs/CommuteAroundMarkup.lean, Proofs/CommuteAroundSuccess.lean,
+  Proofs/ContentBetweenToks.lean.
 -/
 import PM.Step
 import Proofs.StepToks
@@ -969,36 +977,27 @@ theorem commute_around_mark_partial (S : Schema) (d da db dab dba : Node) (f t g
 
 /-! ### both rebased orders apply — replace step vs. replace-around step
 
-General statement (false without a guard for the same reason as `commute_needs_guard`; the structure
-checks are what is missing from the proved part):
+False without a guard for the same reason as `commute_needs_guard`.  A replace-around step applies as:
+(structure checks, if flagged) – cut the gap `d.slice gapFrom gapTo` (must be closed) – put it into the
+slice (`insert_at`) – plain replace of `[from, to)` by the result.  When the other step works on a
+separate part, the gap is found again in its result at the mapped positions as the *same* closed slice
+(`slice_again`, Proofs/CommuteAroundSuccess.lean), so the rebased replace-around step is the same plain
+replace, shifted, and `commute_succeeds_replace` applies with the guard evaluated on
+`(from, to, slice.openStart)` of the replace-around step.  The structure checks pass again because
+`content_between` is a function of the tokens of the range (`contentBetween_eq`,
+Proofs/ContentBetweenToks.lean: "content" unless the range reads close tokens, then open tokens), and the
+two ranges show the same tokens.  Not covered: the replace step inside the kept gap (the gap content, hence
+the inserted slice, differs), two replace-around steps. -/
 
-    commute_succeeds_around_full : the replace step's range lies strictly before `from` or strictly
-        after `to` of the replace-around step, both apply to `d`, `commuteGuard` holds  ⟹
-        both rebased steps apply and give the same document
-
-A replace-around step applies as: (structure checks, if flagged) – cut the gap `d.slice gapFrom gapTo`
-(must be closed) – put it into the slice (`insert_at`) – plain replace of `[from, to)` by the result.
-Proved: the gap is found again in the other step's result at the mapped positions as the *same* closed
-slice (`slice_again`), so the rebased replace-around step is the same plain replace, shifted, and
-`commute_succeeds_replace` applies with the guard evaluated on `(from, to, slice.openStart)` of the
-replace-around step.  Kept as hypothesis `hst` (as in C04 `replaceAround_undo`): when the step carries
-the structure flag, its two `content_between` checks pass on the other step's result — two decidable
-evaluations; missing is the invariance of `content_between` under a separated replace step. -/
-
-/-- **the replace step lies before the replace-around step** -/
--- FULL STATEMENT: the same without `hst`.
-theorem commute_succeeds_around_before_partial (S : Schema) (d da db : Node) (f t gf gt ins f1 t1 : Nat)
+/-- **the replace step lies before the replace-around step**: neither rebased step is dropped, both orders
+    apply, and they give the same document -/
+theorem commute_succeeds_around_before (S : Schema) (d da db : Node) (f t gf gt ins f1 t1 : Nat)
     (sl s1 : Slice) (st b1 : Bool)
     (hn : fnorm d.kids = true) (hsn1 : fnorm s1.content = true) (hsn : fnorm sl.content = true)
     (hs : AroundShape f t gf gt sl ins) (hsep : t1 < f)
     (ha : S.apply (.replace f1 t1 s1 b1) d = .ok da)
     (hb : S.apply (.replaceAround f t gf gt sl ins st) d = .ok db)
-    (hg : commuteGuard d.kids f1 t1 s1 f t sl = true)
-    (hst : st = true →
-      contentBetween da ((f : Int) + (s1.size - ((t1 : Int) - f1))).toNat
-        ((gf : Int) + (s1.size - ((t1 : Int) - f1))).toNat = some false ∧
-      contentBetween da ((gt : Int) + (s1.size - ((t1 : Int) - f1))).toNat
-        ((t : Int) + (s1.size - ((t1 : Int) - f1))).toNat = some false) :
+    (hg : commuteGuard d.kids f1 t1 s1 f t sl = true) :
     ∃ A' R' dab,
       (Step.replaceAround f t gf gt sl ins st).map (Step.replace f1 t1 s1 b1).getMap = some A' ∧
       (Step.replace f1 t1 s1 b1).map (Step.replaceAround f t gf gt sl ins st).getMap = some R' ∧
@@ -1037,11 +1036,24 @@ theorem commute_succeeds_around_before_partial (S : Schema) (d da db : Node) (f 
       ((t : Int) + (s1.size - ((t1 : Int) - f1))).toNat inserted = .ok dab := by
     have := apply_replace_fromReplace S da dab _ _ inserted false hab
     rwa [n' f (by omega), n' t (by omega), ← n f (by omega), ← n t (by omega)] at this
+  have hlenda : (ftoks da.kids).length = f1 + s1.toks.length + ((ftoks d.kids).length - t1) := by
+    rw [hda]; exact splice_length _ _ _ _ h1 hl1
+  have hst : st = true →
+      contentBetween da ((f : Int) + (s1.size - ((t1 : Int) - f1))).toNat
+        ((gf : Int) + (s1.size - ((t1 : Int) - f1))).toNat = some false ∧
+      contentBetween da ((gt : Int) + (s1.size - ((t1 : Int) - f1))).toNat
+        ((t : Int) + (s1.size - ((t1 : Int) - f1))).toNat = some false := by
+    intro hstt
+    subst hstt
+    rw [n f (by omega), n gf (by omega), n gt (by omega), n t (by omega)]
+    exact struct_checks_again d da f t gf gt _ _ _ _ hn hna hgo (by rw [← ftoks_length]; omega)
+      (by rw [← ftoks_length, hlenda]; omega) (by omega) (by omega) (by omega)
+      (by rw [hda]; exact splice_window_after _ _ f1 t1 f _ h1 (by omega) hl1)
+      (by rw [hda]; exact splice_window_after _ _ f1 t1 gt _ h1 (by omega) hl1)
+      (apply_replaceAround_struct S d db f t gf gt sl ins hb)
   refine around_applies_of_parts S da dab _ _ _ _ sl ins st gap inserted ?_ ho1 ho2 hinst hfr hst
   show sliceKids da.kids _ _ = .ok gap
   rw [n gf (by omega), n gt (by omega)]
-  have hlenda : (ftoks da.kids).length = f1 + s1.toks.length + ((ftoks d.kids).length - t1) := by
-    rw [hda]; exact splice_length _ _ _ _ h1 hl1
   have := slice_again d.kids da.kids gf gt (f1 + s1.toks.length + (gf - t1)) gap hn hna hgo.2.1
     (by rw [← ftoks_length]; omega) (by rw [← ftoks_length, hlenda]; omega) hgap' ho1 ho2
     (by rw [hda]; exact splice_window_after _ _ f1 t1 gf _ h1 (by omega) hl1)
@@ -1054,15 +1066,13 @@ theorem commute_succeeds_around_before_partial (S : Schema) (d da db : Node) (f 
   rwa [show f1 + s1.toks.length + (gf - t1) + (gt - gf) = f1 + s1.toks.length + (gt - t1) by omega] at this
 
 /-- **the replace step lies after the replace-around step** -/
--- FULL STATEMENT: the same without `hst`.
-theorem commute_succeeds_around_after_partial (S : Schema) (d da db : Node) (f t gf gt ins f1 t1 : Nat)
+theorem commute_succeeds_around_after (S : Schema) (d da db : Node) (f t gf gt ins f1 t1 : Nat)
     (sl s1 : Slice) (st b1 : Bool)
     (hn : fnorm d.kids = true) (hsn1 : fnorm s1.content = true) (hsn : fnorm sl.content = true)
     (hs : AroundShape f t gf gt sl ins) (hsep : t < f1)
     (ha : S.apply (.replace f1 t1 s1 b1) d = .ok da)
     (hb : S.apply (.replaceAround f t gf gt sl ins st) d = .ok db)
-    (hg : commuteGuard d.kids f t sl f1 t1 s1 = true)
-    (hst : st = true → contentBetween da f gf = some false ∧ contentBetween da gt t = some false) :
+    (hg : commuteGuard d.kids f t sl f1 t1 s1 = true) :
     ∃ A' R' dab,
       (Step.replaceAround f t gf gt sl ins st).map (Step.replace f1 t1 s1 b1).getMap = some A' ∧
       (Step.replace f1 t1 s1 b1).map (Step.replaceAround f t gf gt sl ins st).getMap = some R' ∧
@@ -1103,10 +1113,18 @@ theorem commute_succeeds_around_after_partial (S : Schema) (d da db : Node) (f t
   refine ⟨_, _, dab, around_map_replace_after f t gf gt ins f1 t1 sl s1 st b1 hgo hsep,
     replace_map_around_before f t gf gt ins f1 t1 sl s1 st b1 hgo h1 hsep, ?_, ?_⟩
   · have hfr := apply_replace_fromReplace S da dab _ _ inserted false hba
-    refine around_applies_of_parts S da dab _ _ _ _ sl ins st gap inserted ?_ ho1 ho2 hinst hfr hst
-    show sliceKids da.kids _ _ = .ok gap
     have hlenda : (ftoks da.kids).length = f1 + s1.toks.length + ((ftoks d.kids).length - t1) := by
       rw [hda]; exact splice_length _ _ _ _ h1 hl1
+    have hst : st = true → contentBetween da f gf = some false ∧ contentBetween da gt t = some false := by
+      intro hstt
+      subst hstt
+      exact struct_checks_again d da f t gf gt f t gf gt hn hna hgo (by rw [← ftoks_length]; omega)
+        (by rw [← ftoks_length, hlenda]; omega) (by omega) (by omega) (by omega)
+        (by rw [hda]; exact splice_window_before _ _ f1 t1 f _ (by omega) (by omega))
+        (by rw [hda]; exact splice_window_before _ _ f1 t1 gt _ (by omega) (by omega))
+        (apply_replaceAround_struct S d db f t gf gt sl ins hb)
+    refine around_applies_of_parts S da dab _ _ _ _ sl ins st gap inserted ?_ ho1 ho2 hinst hfr hst
+    show sliceKids da.kids _ _ = .ok gap
     have := slice_again d.kids da.kids gf gt gf gap hn hna hgo.2.1
       (by rw [← ftoks_length]; omega) (by rw [← ftoks_length, hlenda]; omega) hgap' ho1 ho2
       (by rw [hda]; exact splice_window_before _ _ f1 t1 gf _ (by omega) (by omega))
@@ -1121,5 +1139,25 @@ theorem commute_succeeds_around_after_partial (S : Schema) (d da db : Node) (f t
       intro p; congr 1; omega
     rw [← e f1, ← e t1]
     exact hab
+
+/-- **a replace step and a replace-around step, the replace step's range strictly before `from` or strictly
+    after `to`, one of the two inside a node the other one does not touch** (`commuteGuard` on
+    `(from, to, slice)` of the replace-around step): neither rebased step is dropped, both orders apply,
+    and they give the same document -/
+theorem commute_succeeds_around (S : Schema) (d da db : Node) (f t gf gt ins f1 t1 : Nat)
+    (sl s1 : Slice) (st b1 : Bool)
+    (hn : fnorm d.kids = true) (hsn1 : fnorm s1.content = true) (hsn : fnorm sl.content = true)
+    (hs : AroundShape f t gf gt sl ins)
+    (ha : S.apply (.replace f1 t1 s1 b1) d = .ok da)
+    (hb : S.apply (.replaceAround f t gf gt sl ins st) d = .ok db)
+    (hg : (t1 < f ∧ commuteGuard d.kids f1 t1 s1 f t sl = true) ∨
+      (t < f1 ∧ commuteGuard d.kids f t sl f1 t1 s1 = true)) :
+    ∃ A' R' dab,
+      (Step.replaceAround f t gf gt sl ins st).map (Step.replace f1 t1 s1 b1).getMap = some A' ∧
+      (Step.replace f1 t1 s1 b1).map (Step.replaceAround f t gf gt sl ins st).getMap = some R' ∧
+      S.apply A' da = .ok dab ∧ S.apply R' db = .ok dab := by
+  rcases hg with ⟨h, hg⟩ | ⟨h, hg⟩
+  · exact commute_succeeds_around_before S d da db f t gf gt ins f1 t1 sl s1 st b1 hn hsn1 hsn hs h ha hb hg
+  · exact commute_succeeds_around_after S d da db f t gf gt ins f1 t1 sl s1 st b1 hn hsn1 hsn hs h ha hb hg
 
 end PM.C17
